@@ -270,6 +270,27 @@ def run(F, rep):
 
     recursion.rule_stack_discipline(F, rep, 'C08.P2', lambda g_: g_.file.endswith('/units.cpp'), 2, 'units.cpp (isDefined() decides compatible/scalingFactor)')
 
+    rep.rule('C08.G3', 'every value Units::scalingFactor returns other than the refusal 0.0 is computed from the multipliers of BOTH arguments (updateUnitMultiplier): no shortcut returns a constant such as 1.0 - units without unit '
+                       'children are not necessarily base units (imported units have none locally), so "nothing to scale" cannot be told from the arguments\' own child counts')
+    sff = F.fn1('libcellml::Units::scalingFactor')
+    n_g3 = 0
+    for r_ in sff.walk():
+        if r_.get('k') != 'Return' or not r_.get('c') or sff.enclosing_lambda(r_) is not None:
+            continue
+        e_ = r_['c'][0]
+        while e_.get('k') in ('Paren', 'Cast') and len(e_.get('c', [])) == 1:
+            e_ = e_['c'][0]
+        n_g3 += 1
+        if e_.get('k') in ('Float', 'Int'):
+            rep.check(float(e_.get('v') or 0) == 0.0, 'C08.G3', 'scalingFactor|return %s@%s' % (render(e_), sum(1 for x in sff.walk() if x.get('k') == 'Return' and x.get('l', 0) < r_.get('l', 0))), sff.where(r_),
+                      'Units::scalingFactor returns the constant %s on some path (under %s) without looking at the multipliers of the two units' % (render(e_), sorted(t for t, tr in (ff(sff).rendered_conds_at(r_) or set()) if tr)[:3]), 'refusal value')
+        else:
+            from engines import walk_x as _wx8
+            mult = [x for x in _wx8(sff, e_) if x.get('k') == 'Ref' and x.get('dk') == 'local' and any(c_.get('k') == 'Call' and c_.get('fn') == 'updateUnitMultiplier' and any(y.get('k') == 'Ref' and y.get('d') == x.get('d') for y in walk(c_)) for c_ in sff.walk())]
+            rep.check(bool(mult), 'C08.G3', 'scalingFactor|return %s' % render(e_)[:30], sff.where(r_), 'Units::scalingFactor returns `%s`, which does not derive from updateUnitMultiplier' % render(e_)[:50], 'derived from the multiplier accumulated by updateUnitMultiplier')
+    if n_g3 < 2:
+        raise AnalysisBroken('C08.G3: Units::scalingFactor has %d returns' % n_g3)
+
     rep.rule('C08.G2', 'Units::compatible can answer true only for units that are both fully defined: every return that can be true is reached only where isDefined() held for both arguments '
                        '(a shortcut such as "the same object is compatible with itself" in front of those gates contradicts scalingFactor, which still yields 0)')
     cpf = F.fn1('libcellml::Units::compatible')
